@@ -114,6 +114,11 @@ def extra_cases():
     for opts in ({}, {"use": "enc"}, {"use": "sig"}, {"key_ops": ["verify"]}, {"key_ops": ["sign"]}, {"key_ops": ["decrypt"]}, {"key_ops": ["sign", "verify"]}):
         for kind in ("rsa", "rsa_d", "ec"):
             out.append({"op": "jws_keyops", "kind": kind, "opts": opts})
+    # a key set in which all members but one are of a key type the library does not know, and a token without kid: several keys exist, none is designated
+    for form in ("dict", "json", "list"):
+        for unknown in ({"kty": "AKP", "alg": "ML-DSA-44", "pub": "AAAA"}, {"kty": "XYZ"}):
+            for n_unknown in (1, 2):
+                out.append({"op": "unknown_kty_set", "form": form, "unknown": unknown, "n_unknown": n_unknown})
     # a token that carries its maker's own key in a "jwk" header, presented where the caller designates a degenerate (empty) key: never accepted
     for api in ("jws", "jwt", "jwe-dir", "jwe-A256KW", "jwe-json"):
         for key in ("b''", "''", "[]", "{}", "{'keys': []}", "0", "False", "KeySet([])", "()"):
@@ -195,6 +200,21 @@ def impl_extra(c):
         key = KeySet([OctKey.import_key(k) for k in ks]) if c["form"] == "keySet" else {"keys": ks}
         try:
             JsonWebToken(["HS256"]).decode(tok, key)
+            return {"accepted": True}
+        except Exception as e:
+            return {"accepted": False, "error": type(e).__name__}
+    if c["op"] == "unknown_kty_set":
+        from authlib.jose import JsonWebKey
+        k = OctKey.import_key(b"A" * 32)
+        tok = JsonWebSignature().serialize_compact({"alg": "HS256"}, b'{"sub":"x"}', k)
+        members = [dict(c["unknown"], n=i) for i in range(c["n_unknown"])] + [dict(k.as_dict(is_private=True))]
+        for m in members:
+            m.pop("kid", None)
+        raw = {"keys": members}
+        raw = json.dumps(raw) if c["form"] == "json" else members if c["form"] == "list" else raw
+        try:
+            ks = JsonWebKey.import_key_set(raw)
+            JsonWebToken(["HS256"]).decode(tok, ks)
             return {"accepted": True}
         except Exception as e:
             return {"accepted": False, "error": type(e).__name__}
@@ -355,7 +375,7 @@ ERR = [(je.MissingAlgorithmError, "missing_algorithm"), (je.UnsupportedAlgorithm
 def impl(c):
     if c["op"] == "confusion":
         return impl_confusion(c)
-    if c["op"] in ("kidtype", "jwe_allow", "callable", "embedded_jwk", "jwe_keyops", "jws_keyops"):
+    if c["op"] in ("kidtype", "jwe_allow", "callable", "embedded_jwk", "unknown_kty_set", "jwe_keyops", "jws_keyops"):
         return impl_extra(c)
     tok, header = make_token(c)
     arg = c["arg"]
@@ -439,7 +459,7 @@ def model_line(c):
             hdr["jwk"] = kd(kty, crv, signer)
         answer = {"right": kd(kty, crv, 1), "none": None, "wrong": kd(kty, crv, 2 if signer == 1 else 1)}[c["returns"]]
         return {"op": "policy", "allowed": [c["alg"]] if c["api"] == "jwt" else None, "private_headers": [], "hdr": hdr, "arg": {"resolver": answer}}
-    if c["op"] in ("kidtype", "jwe_allow", "embedded_jwk", "jws_keyops"):
+    if c["op"] in ("kidtype", "jwe_allow", "embedded_jwk", "jws_keyops", "unknown_kty_set"):
         return None
     if c["op"] == "confusion":
         return {"op": "oct_import", "raw": c["raw"]}
@@ -563,6 +583,11 @@ def oracle(c, out):
         if not out["accepted"] and want:
             v.append((f"{c['api']}: token signed by the key the resolver returns was refused ({out.get('error')})", {"kind": "refused-within-policy", "alg": c["alg"], "form": "callable"}))
         return v
+    if c["op"] == "unknown_kty_set":
+        if out["accepted"]:
+            v.append((f"a token without kid verified against a key set of {c['n_unknown'] + 1} members (given as {c['form']}; {c['n_unknown']} of them of the unknown type {c['unknown']['kty']!r}): "
+                      "several keys exist and none is designated", {"kind": "wrong-key-selected", "alg": "HS256", "form": "unknown-kty-set"}))
+        return v
     if c["op"] == "embedded_jwk":
         if out["accepted"]:
             v.append((f"{c['api']}: token carrying its maker's key in a jwk header accepted although the caller designated the key {c['key']}", {"kind": "resolver-bypassed", "alg": c["api"]}))
@@ -593,7 +618,7 @@ def classify(c, out):
         return f"jwe_keyops/{c['alg']}/{out['encrypt']}/{out['decrypt']}"
     if c["op"] == "jws_keyops":
         return f"jws_keyops/{c['kind']}/{out['sign']}/{out['verify']}"
-    if c["op"] in ("kidtype", "jwe_allow", "callable", "embedded_jwk"):
+    if c["op"] in ("kidtype", "jwe_allow", "callable", "embedded_jwk", "unknown_kty_set"):
         return c["op"] + "/" + ("accepted" if out["accepted"] else "refused")
     if c["op"] == "confusion":
         return "confusion/" + ("accepted" if out["accepted"] else "refused") + ("/loads" if out["_loads"] else "")
